@@ -1,16 +1,59 @@
 /-
 C10 — randomised predictors sample from the probability mass function they report.
-Property theorems only; helper lemmas live in `Lemmas/Pmf.lean`.
+Property theorems only; helper lemmas live in `Lemmas/Pmf.lean` and `Lemmas/PmfMore.lean`.
 
 What is random is an input of the model (`u`, the number `RandomState` drew); "frequencies over
 seeds match" is therefore stated as: the set of `u ∈ [0,1)` on which an outcome is produced is an
 interval whose length is the reported probability.  The uniformity of the generator is trusted.
 
-The hypotheses on a fitted rule (`Rule.Valid`) are NOT derived here from the fitting code (a colleague's
-`Model/Threshold.lean` does that); they are a decidable predicate (`Rule.valid`, see `valid_iff`) that the
-driver evaluates on every fitted model the harness produces.
+The hypotheses on a fitted rule (`Rule.Valid`) are a decidable predicate (`Rule.valid`, see `valid_iff`) that the
+driver evaluates on every fitted model the harness produces; for the models of `Model/Threshold.lean` they are
+DERIVED from the fitting code (`fitted_rules_valid_simple / _EO`), so the `fitted_*` theorems below carry no
+hypothesis beyond "the fit succeeded".
+
+CLAUSE → THEOREM TABLE (R1 review; property text in properties.jsonl)
+  1  reported probabilities are a valid distribution per row (in [0,1], summing to 1)
+       thresholder : `thresholder_pmf_range` (any dict of valid rules, seen or unseen group, any score),
+                     `fitted_pmf_is_distribution_simple / _EO` (every fitted model, NO further hypothesis),
+                     `thresholder_pmf_range_slack` (float slack on p0 + p1)
+       EG          : `eg_pmf_range`, `eg_pmf_range_slack`, `eg_pmf_row_distribution` (row `(1 - p, p)`); the sum
+                     hypothesis is needed: `eg_pmf_range_needs_sum`.  HYPOTHESES, not derived here:
+                     `weights_` is a probability vector over distinct predictor ids and the stored classifiers output
+                     values in [0,1]; evaluated by the harness on every fitted model (relation `C10.eg_pmf_range.hyp`);
+                     that the EG loop produces such weights is C08's subject.
+  2  EG: positive probability = `weights_`-weighted mixture of the stored predictors' outputs
+       `eg_pmf_is_mixture`, `eg_pmf_order_irrelevant`
+  3  thresholder: depends only on the row's score and group
+       `pmf_depends_only_on_score_group`, `thresholder_selects_group`, `thresholder_unseen_group`
+       (the model is row-wise BY CONSTRUCTION; what ties the real mask assignment to it is the correspondence
+        relation `C10.pmf_depends_only_on_score_group`: permuted / duplicated query rows in another container)
+  4  thresholder, without flip: never decreases as the score increases
+       `pmf_monotone_noflip` (hypotheses), `fitted_pmf_monotone_noflip_simple / _EO` (every model fitted with
+       flip = False); sharpness `flip_not_monotone`
+  5  predict returns labels in {0,1}
+       `bernoulli_is_label`, `predict_rowwise`
+  6  regression moments: the value of ONE STORED predictor, chosen with its OWN weight
+       `eg_regression_own_weight` (code = id-aligned draw, pairing lifted), `eg_regression_byid_own_weight`
+       (interval of length `weights_[t]`), `eg_regression_returns_stored_value` (never the 0 placeholder of a
+       zero-weight predictor), `choice_own_weight`, `choice_total`; old positional code refuted:
+       `eg_regression_positional_counterexample`; `eg_regression_own_weight_partial` = the clause for positional code
+  7  frequencies over independent seeds match the probabilities — PARTIAL BY NATURE (RNG trusted)
+       `bernoulli_iff` (label 1 exactly on u ≤ p: measure p of [0,1) for 0 ≤ p < 1), `choice_own_weight`;
+       harness: exact replay of RandomState draws + exact binomial tests + pooled Hoeffding test
+  8  reproducible for a fixed random_state
+       the model is a FUNCTION of (reported probabilities, draws): `predict_rowwise`, `predict_row_independent`,
+       `predict_draw_count`, `bernoulli_reproducible` (congruence — trivial by design); that equal seeds give
+       equal draws is RandomState behaviour (trusted), observed by relation `C10.bernoulli_reproducible`
+  9  deterministic where the probability is 0 or 1
+       `bernoulli_deterministic_one` (all u < 1), `bernoulli_deterministic_zero` (all u > 0; u = 0 — probability
+       2⁻⁵³ — gives label 1 because the code compares with `>=`: `example : bernoulli 0 0 = 1`),
+       regression: `choice_deterministic`
+  Totalisation: `preds.getD t 0` / `weightOf … = 0` defaults are reached only for a predictor id outside
+  `0..T-1` (pandas would raise KeyError); `fit` fills `weights_` for exactly the ids `0..T-1`, and the harness
+  reports any other index as `C10.eg_pmf_range.hyp`.  `choice` returns an `Option` (no default).
 -/
 import FairModel.Lemmas.Pmf
+import FairModel.Lemmas.PmfMore
 import FairModel.Properties.C04
 
 namespace C10
@@ -33,6 +76,23 @@ theorem src_predict_path (s t p0 o0 p1 o1 pi c v p u : Rat) :
 
 /-- the decidable predicate the driver evaluates is exactly the hypothesis used below -/
 theorem valid_decides (eps : Rat) (r : Rule) : r.valid eps = true ↔ r.Valid eps := valid_iff eps r
+
+/-- an equalized-odds style rule with ±inf thresholds -/
+def exRule : Rule := ⟨3/4, ⟨.gt, .fin (1/2)⟩, 1/4, ⟨.gt, .pinf⟩, some (1/5, 3/8)⟩
+def exDict : List (String × Rule) :=
+  [("a", exRule), ("b", ⟨0, ⟨.gt, .ninf⟩, 1, ⟨.gt, .fin (1/4)⟩, none⟩)]
+
+/-- non-vacuity (`thresholder_rule_range`, `thresholder_pmf_range`, `pmf_monotone_noflip`): a two-group dict with a
+    genuinely interpolating rule (p0 = 3/4, p_ignore = 1/5), ±inf thresholds, meets ALL hypotheses at once, and the
+    value at an interior score is strictly between 0 and 1 -/
+example : (∀ e ∈ exDict, e.2.Valid 0) ∧ (∀ e ∈ exDict, e.2.allGt = true) ∧ ((exDict.map (·.1)).Nodup) ∧
+    0 < thrPositive exDict "a" (5/8) ∧ thrPositive exDict "a" (5/8) < 1 ∧
+    thrPositive exDict "a" (1/4) < thrPositive exDict "a" (5/8) := by
+  refine ⟨?_, by decide +kernel, by decide +kernel, by decide +kernel, by decide +kernel, by decide +kernel⟩
+  intro e he
+  rw [← valid_iff]
+  revert e
+  decide +kernel
 
 /-- one rule: `p_ignore*c + (1-p_ignore)*(p0*op0(s) + p1*op1(s))` is a probability -/
 theorem thresholder_rule_range (r : Rule) (s : Rat) (h : r.Valid 0) :
@@ -176,6 +236,59 @@ theorem fitted_pmf_is_distribution (names : List String) (fit : Fit)
   obtain ⟨q, _, rfl⟩ := List.mem_map.mp hrow
   exact thresholder_pmf_range (dictOf names fit.rules) q.1 q.2 hv
 
+open Threshold ThresholdGen ThresholdPredict in
+/-- clause 1 for every model fitted with a single-metric constraint — no hypothesis beyond "the fit succeeded" -/
+theorem fitted_pmf_is_distribution_simple (flip : Bool) (xm ym : Metric) (N : Nat) (groups : List (List Row))
+    (force : Option Nat) (fit : Fit) (names : List String) (hN : 1 ≤ N) (hx : IsConstraintMetric xm)
+    (hfit : fitSimple flip xm ym N groups force = some fit) (rows : List (String × Rat)) :
+    ∀ row ∈ predictPmf names fit rows, 0 ≤ row.2 ∧ row.2 ≤ 1 ∧ 0 ≤ row.1 ∧ row.1 ≤ 1 ∧ row.1 + row.2 = 1 :=
+  fitted_pmf_is_distribution names fit
+    (fun e he => (fitted_rules_valid_simple flip xm ym N groups force fit names hN hx hfit e he).1) rows
+
+open Threshold ThresholdGen ThresholdPredict in
+/-- ... and for every equalized-odds fit -/
+theorem fitted_pmf_is_distribution_EO (flip : Bool) (obj : Metric) (N : Nat) (groups : List (List Row))
+    (force : Option Nat) (fit : Fit) (yBest : Rat) (names : List String) (hN : 1 ≤ N)
+    (hfit : fitEO flip obj N groups force = some (fit, yBest)) (rows : List (String × Rat)) :
+    ∀ row ∈ predictPmf names fit rows, 0 ≤ row.2 ∧ row.2 ≤ 1 ∧ 0 ≤ row.1 ∧ row.1 ≤ 1 ∧ row.1 + row.2 = 1 :=
+  fitted_pmf_is_distribution names fit
+    (fun e he => (fitted_rules_valid_EO flip obj N groups force fit yBest names hN hfit e he).1) rows
+
+open Threshold ThresholdGen ThresholdPredict in
+/-- clause 4 for every model fitted with `flip = False` (single-metric constraint): for every group key (seen or not)
+    the reported positive probability is non-decreasing in the score — no further hypothesis -/
+theorem fitted_pmf_monotone_noflip_simple (xm ym : Metric) (N : Nat) (groups : List (List Row))
+    (force : Option Nat) (fit : Fit) (names : List String) (hN : 1 ≤ N) (hx : IsConstraintMetric xm)
+    (hfit : fitSimple false xm ym N groups force = some fit) (g : String) (s s' : Rat) (hs : s ≤ s') :
+    thrPositive (dictOf names fit.rules) g s ≤ thrPositive (dictOf names fit.rules) g s' := by
+  have h := fitted_rules_valid_simple false xm ym N groups force fit names hN hx hfit
+  exact pmf_monotone_noflip 0 _ g s s' (fun e he => (h e he).1) (fun e he => (h e he).2 rfl) hs
+
+open Threshold ThresholdGen ThresholdPredict in
+/-- ... and for every equalized-odds model fitted with `flip = False` (the `p_ignore` mixing keeps monotonicity) -/
+theorem fitted_pmf_monotone_noflip_EO (obj : Metric) (N : Nat) (groups : List (List Row))
+    (force : Option Nat) (fit : Fit) (yBest : Rat) (names : List String) (hN : 1 ≤ N)
+    (hfit : fitEO false obj N groups force = some (fit, yBest)) (g : String) (s s' : Rat) (hs : s ≤ s') :
+    thrPositive (dictOf names fit.rules) g s ≤ thrPositive (dictOf names fit.rules) g s' := by
+  have h := fitted_rules_valid_EO false obj N groups force fit yBest names hN hfit
+  exact pmf_monotone_noflip 0 _ g s s' (fun e he => (h e he).1) (fun e he => (h e he).2 rfl) hs
+
+open Threshold ThresholdGen ThresholdPredict in
+/-- non-vacuity of the `fitted_*` theorems: the 3-group example of C04 (ties, a vertical hull segment) fits under a
+    simple constraint without flip and under equalized odds with flip; the stored dicts are valid, the no-flip one
+    has only `>` operations, and both are genuinely randomised (0 < p < 1) at a training score -/
+example : (fitSimple false .selection_rate .balanced_accuracy_score 3 C04.ex none).map (fun f =>
+      ((dictOf ["a", "b", "c"] f.rules).all (fun e => e.2.valid 0 && e.2.allGt),
+       decide (0 < thrPositive (dictOf ["a", "b", "c"] f.rules) "b" (1/2) ∧
+               thrPositive (dictOf ["a", "b", "c"] f.rules) "b" (1/2) < 1))) = some (true, true) := by
+  decide +kernel
+open Threshold ThresholdGen ThresholdPredict in
+example : (fitEO true .accuracy_score 4 C04.ex none).map (fun f =>
+      ((dictOf ["a", "b", "c"] f.1.rules).all (fun e => e.2.valid 0),
+       decide (0 < thrPositive (dictOf ["a", "b", "c"] f.1.rules) "a" (1/2) ∧
+               thrPositive (dictOf ["a", "b", "c"] f.1.rules) "a" (1/2) < 1))) = some (true, true) := by
+  decide +kernel
+
 /-! ### `predict`: labels row by row from the draws -/
 
 open Threshold ThresholdPredict in
@@ -238,6 +351,51 @@ theorem eg_pmf_range (preds : List Rat) (weights : List (Nat × Rat))
   rw [hsum] at this
   exact this
 
+/-- the same WITHOUT assuming the weights sum to exactly 1 (the LP step returns `weights_` that sum to 1 only up to the
+    solver's tolerance; the harness evaluates `|Σ weights_ - 1| ≤ 1e-7`): `0 ≤ p ≤ Σ weights_ ≤ 1 + eps` -/
+theorem eg_pmf_range_slack (preds : List Rat) (weights : List (Nat × Rat)) (eps : Rat)
+    (hnd : (weights.map (·.1)).Nodup) (hw : ∀ e ∈ weights, 0 ≤ e.2)
+    (hsum : (weights.map (·.2)).sum ≤ 1 + eps)
+    (hp : ∀ e ∈ weights, 0 ≤ preds.getD e.1 0 ∧ preds.getD e.1 0 ≤ 1) :
+    0 ≤ egPositive preds weights ∧ egPositive preds weights ≤ 1 + eps := by
+  rw [egPositive_eq_sum preds weights hnd]
+  have := sum_mul_le_sum (weights.map (fun e => (preds.getD e.1 0, e.2))) (by
+    intro x hx
+    obtain ⟨e, he, rfl⟩ := List.mem_map.mp hx
+    exact ⟨(hp e he).1, (hp e he).2, hw e he⟩)
+  simp only [List.map_map, Function.comp_def] at this
+  exact ⟨this.1, le_trans this.2 hsum⟩
+
+/-- the hypothesis `Σ weights_ = 1` of `eg_pmf_range` is NEEDED (the model function, like the code, just forms the dot
+    product): weights summing to 3/2 give the "probability" 3/2.  The harness therefore evaluates the hypothesis on every
+    fitted model (`C10.eg_pmf_range.hyp`) -/
+theorem eg_pmf_range_needs_sum :
+    (∀ e ∈ [((0 : Nat), (3/4 : Rat)), (1, 3/4)], 0 ≤ e.2) ∧ egPositive [1, 1] [(0, 3/4), (1, 3/4)] = 3/2 := by
+  decide +kernel
+
+/-- the reported row `(1 - p, p)` of `ExponentiatedGradient._pmf_predict` is a valid distribution under the same
+    hypotheses.  (The column expression `np.concatenate((1 - positive_probs, positive_probs), axis=1)` is NOT lifted;
+    the harness compares both reported columns with `1 - p` and `p`.) -/
+theorem eg_pmf_row_distribution (preds : List Rat) (weights : List (Nat × Rat))
+    (hnd : (weights.map (·.1)).Nodup) (hw : ∀ e ∈ weights, 0 ≤ e.2)
+    (hsum : (weights.map (·.2)).sum = 1)
+    (hp : ∀ e ∈ weights, 0 ≤ preds.getD e.1 0 ∧ preds.getD e.1 0 ≤ 1) :
+    0 ≤ 1 - egPositive preds weights ∧ 1 - egPositive preds weights ≤ 1 ∧
+    0 ≤ egPositive preds weights ∧ egPositive preds weights ≤ 1 ∧
+    (1 - egPositive preds weights) + egPositive preds weights = 1 := by
+  obtain ⟨h0, h1⟩ := eg_pmf_range preds weights hnd hw hsum hp
+  exact ⟨by linarith, by linarith, h0, h1, by ring⟩
+
+/-- non-vacuity (`eg_pmf_is_mixture`, `eg_pmf_range`, `eg_pmf_row_distribution`): three stored 0/1 predictors, `weights_`
+    listed in an order that is NOT the id order, one zero weight; all hypotheses hold at once, every id is inside the
+    predictor list (no `getD` default is used) and the mixture is strictly between 0 and 1 -/
+example :
+    let preds : List Rat := [1, 0, 1, 1]
+    let w : List (Nat × Rat) := [(0, 1/2), (3, 0), (2, 1/4), (1, 1/4)]
+    (w.map (·.1)).Nodup ∧ (∀ e ∈ w, 0 ≤ e.2) ∧ (w.map (·.2)).sum = 1 ∧ (∀ e ∈ w, e.1 < preds.length) ∧
+    (∀ e ∈ w, 0 ≤ preds.getD e.1 0 ∧ preds.getD e.1 0 ≤ 1) ∧ egPositive preds w = 3/4 := by
+  decide +kernel
+
 /-! ### the Bernoulli draw `(p >= u) * 1` -/
 
 theorem bernoulli_is_label (p u : Rat) : bernoulli p u = 0 ∨ bernoulli p u = 1 :=
@@ -286,6 +444,26 @@ theorem choice_total (values probs : List Rat) (hlen : values.length = probs.len
   unfold choice
   rw [← hlen] at this
   exact ⟨values[choiceIdx probs u], by simp [List.getElem?_eq_getElem this]⟩
+
+/-- **deterministic where a probability is 1**: in a probability vector with `probs[i] = 1` position `i` is returned for
+    EVERY draw `u ∈ [0,1)` -/
+theorem choice_deterministic (probs : List Rat) (hp : ∀ p ∈ probs, 0 ≤ p) (hsum : probs.sum = 1)
+    (i : Nat) (hi : i < probs.length) (h1 : probs[i] = 1) (u : Rat) (hu0 : 0 ≤ u) (hu1 : u < 1) :
+    choiceIdx probs u = i := by
+  rw [choice_own_weight probs hp u hu0 i hi, take_sum_zero_of_one probs hp hsum i hi h1, h1]
+  constructor <;> linarith
+
+/-- the chosen position always carries a positive probability (a zero-probability value is never returned) -/
+theorem choice_positive_weight (probs : List Rat) (hp : ∀ p ∈ probs, 0 ≤ p) (hsum : probs.sum = 1)
+    (u : Rat) (hu0 : 0 ≤ u) (hu1 : u < 1) :
+    ∃ h : choiceIdx probs u < probs.length, 0 < probs[choiceIdx probs u] :=
+  choiceIdx_prob_pos probs hp u hu0 (by rw [hsum]; exact hu1)
+
+/-- non-vacuity (`choice_own_weight`, `choice_total`, `choice_positive_weight`, `choice_deterministic`): a probability
+    vector with a zero entry in the middle; the draw 1/2 falls on the boundary and selects position 2 (never 1) -/
+example : (∀ p ∈ ([1/2, 0, 1/2] : List Rat), 0 ≤ p) ∧ ([1/2, 0, 1/2] : List Rat).sum = 1 ∧
+    choiceIdx [1/2, 0, 1/2] (1/2) = 2 ∧ choiceIdx [1/2, 0, 1/2] (1/4) = 0 ∧
+    choiceIdx [0, 1, 0] (3/4) = 1 ∧ choiceIdx [0, 1, 0] 0 = 1 := by decide +kernel
 
 /-! ### ExponentiatedGradient, regression moments -/
 
@@ -337,6 +515,36 @@ theorem eg_regression_own_weight (preds : List Rat) (weights : List (Nat × Rat)
     egRegPredictCode preds weights u = egRegPredictById preds weights u :=
   eg_regression_code_own_weight preds weights (Or.inl (by decide)) u
 
+/-- **"the value of one stored predictor"**: for non-negative weights and every draw below their total (every
+    `u ∈ [0,1)` for a probability vector) `predict` returns `preds[t]` for a stored predictor `t` with POSITIVE weight —
+    never the `0.0` placeholder column `_pmf_predict` writes for a zero-weight predictor, never nothing -/
+theorem eg_regression_returns_stored_value (preds : List Rat) (weights : List (Nat × Rat))
+    (hw : ∀ t, 0 ≤ weightOf weights t) (u : Rat) (hu0 : 0 ≤ u)
+    (hu1 : u < ((List.range preds.length).map (weightOf weights)).sum) :
+    ∃ t, ∃ ht : t < preds.length, 0 < weightOf weights t ∧ egRegPredictCode preds weights u = some preds[t] := by
+  rw [eg_regression_own_weight]
+  have hp : ∀ p ∈ (List.range preds.length).map (weightOf weights), 0 ≤ p := by
+    intro p hp
+    obtain ⟨k, _, rfl⟩ := List.mem_map.mp hp
+    exact hw k
+  obtain ⟨hlt, hpos⟩ := choiceIdx_prob_pos _ hp u hu0 hu1
+  have ht : choiceIdx ((List.range preds.length).map (weightOf weights)) u < preds.length := by simpa using hlt
+  simp only [List.getElem_map, List.getElem_range] at hpos
+  refine ⟨_, ht, hpos, ?_⟩
+  unfold egRegPredictById choice
+  rw [List.getElem?_eq_getElem (by simpa using ht)]
+  simp only [List.getElem_map, List.getElem_range, maskedPred, if_neg (ne_of_gt hpos), List.getD,
+    List.getElem?_eq_getElem ht, Option.getD_some]
+
+/-- non-vacuity (`eg_regression_byid_own_weight`, `eg_regression_returns_stored_value`): the F7 shape — `weights_.index`
+    = [0, 1, 3, 2], predictor 2 has weight 0 — meets the hypotheses; the draw 3/4 returns predictor 3's value 8,
+    not the placeholder -/
+example :
+    let w : List (Nat × Rat) := [(0, 1/3), (1, 1/3), (3, 1/3), (2, 0)]
+    (∀ t < 4, 0 ≤ weightOf w t) ∧ ((List.range 4).map (weightOf w)).sum = 1 ∧ weightOf w 2 = 0 ∧
+    egRegPredictCode [5, 6, 7, 8] w (3/4) = some 8 ∧ egRegPredictCode [5, 6, 7, 8] w 0 = some 5 := by
+  decide +kernel
+
 /-- **F7 (regression witness for the OLD, positional pairing `p=self.weights_`; kept so that
     re-introducing it is recognised).**  A fitted model reachable with
     `run_linprog_step=False` has `weights_` = {0: 1/3, 1: 1/3, 3: 1/3, 2: 0} in THIS index order
@@ -360,11 +568,6 @@ theorem eg_regression_positional_counterexample (a b c d u : Rat) (h1 : 2/3 ≤ 
     rfl
 
 /-! Non-vacuity: concrete fitted-model shapes meet the hypotheses (evaluated by the kernel). -/
-
-/-- an equalized-odds style rule with ±inf thresholds -/
-def exRule : Rule := ⟨3/4, ⟨.gt, .fin (1/2)⟩, 1/4, ⟨.gt, .pinf⟩, some (1/5, 3/8)⟩
-def exDict : List (String × Rule) :=
-  [("a", exRule), ("b", ⟨0, ⟨.gt, .ninf⟩, 1, ⟨.gt, .fin (1/4)⟩, none⟩)]
 
 example : exRule.valid 0 = true := by decide +kernel
 example : exDict.all (fun e => e.2.valid 0 && e.2.allGt) = true := by decide +kernel
